@@ -338,13 +338,13 @@ def tail_statements(stmts, make):
 
 
 class Helper:
-    __slots__ = ('comp_targets', 'node', 'params', 'defaults', 'prefix', 'result', 'assigned', 'locals', 'returns_value', 'tail')
+    __slots__ = ('comp_targets', 'node', 'params', 'defaults', 'prefix', 'result', 'assigned', 'locals', 'returns_value', 'tail', 'method')
 
     def __init__(self, node):
         self.node = node
 
 
-def analyse_helper(fn):
+def analyse_helper(fn, method=False):
     if isinstance(fn, ast.AsyncFunctionDef) or fn.decorator_list:
         return None
     a = fn.args
@@ -367,6 +367,11 @@ def analyse_helper(fn):
         return None
     h = Helper(fn)
     pos = list(a.posonlyargs) + list(a.args)
+    if method:
+        if not pos or pos[0].arg != 'self':
+            return None
+        pos = pos[1:]
+    h.method = method
     h.params = [p.arg for p in pos] + [p.arg for p in a.kwonlyargs]
     h.defaults = {}
     for p, d in zip(reversed(pos), reversed(a.defaults)):
@@ -411,7 +416,7 @@ def bind_args(h, call):
     """-> {param: arg expression} or None"""
     if any(isinstance(x, ast.Starred) for x in call.args) or any(k.arg is None for k in call.keywords):
         return None
-    npos = len(h.node.args.posonlyargs) + len(h.node.args.args)
+    npos = len(h.node.args.posonlyargs) + len(h.node.args.args) - (1 if h.method else 0)
     if len(call.args) > npos:
         return None
     out = {}
@@ -451,7 +456,7 @@ class Inliner:
     # ---- one call ------------------------------------------------------------------------------------------------------
     def expand(self, call, host_names, statement_context, stmt=None):
         """-> (prefix statements, result expression or None) or None when the call must stay"""
-        h = self.helpers.get(call.func.id)
+        h = self.helpers.get(self.key(call))
         if h is None:
             return None
         args = bind_args(h, call)
@@ -531,8 +536,8 @@ class Inliner:
         class T(ast.NodeTransformer):
             def visit_Call(self, node):
                 self.generic_visit(node)
-                if isinstance(node.func, ast.Name) and node.func.id in me.helpers:
-                    h = me.helpers[node.func.id]
+                if me.key(node) is not None:
+                    h = me.helpers[me.key(node)]
                     if not h.prefix and h.result is not None:
                         r = me.expand(node, host_names, False)
                         if r is not None:
@@ -549,7 +554,7 @@ class Inliner:
             for i, v in enumerate(items):
                 if not isinstance(v, ast.AST):
                     continue
-                if self.helper_call(v) and self.helpers[v.func.id].prefix and self.helpers[v.func.id].result is not None:
+                if self.helper_call(v) and self.helpers[self.key(v)].prefix and self.helpers[self.key(v)].result is not None:
                     return node, field, (i if isinstance(value, list) else None), v
                 if isinstance(v, _TRANSPARENT):
                     r = self._find_hoistable(v)
@@ -557,8 +562,20 @@ class Inliner:
                         return r
         return None
 
+    def key(self, e):
+        """name under which the callee of a call is registered as an inlinable helper, or None"""
+        if not isinstance(e, ast.Call):
+            return None
+        f = e.func
+        if isinstance(f, ast.Name):
+            return f.id if f.id in self.helpers else None
+        if isinstance(f, ast.Attribute) and isinstance(f.value, ast.Name) and f.value.id == 'self':
+            k = 'self.' + f.attr
+            return k if k in self.helpers else None
+        return None
+
     def helper_call(self, e):
-        return isinstance(e, ast.Call) and isinstance(e.func, ast.Name) and e.func.id in self.helpers
+        return self.key(e) is not None
 
     # ---- statements ----------------------------------------------------------------------------------------------------
     def block(self, stmts, host_names):
@@ -849,6 +866,74 @@ class _Split(ast.NodeTransformer):
         return node
 
 
+_MUTATORS = {'append', 'add', 'update', 'extend', 'pop', 'remove', 'discard', 'clear', 'insert', 'setdefault', 'popitem', 'sort', 'reverse',
+             'difference_update', 'intersection_update', 'symmetric_difference_update'}
+
+
+def _inline_constants(tree, known_names):
+    """a NEW module-level name bound to a small literal collection / constant and only ever read (a constant moved out of a function body) is
+    replaced by the literal where it is read, so that rules see `x in (B, N, P)` whether or not the tuple got a name"""
+    consts = {}
+    for st in tree.body:
+        if isinstance(st, ast.Assign) and len(st.targets) == 1 and isinstance(st.targets[0], ast.Name):
+            name, v = st.targets[0].id, st.value
+        elif isinstance(st, ast.AnnAssign) and isinstance(st.target, ast.Name) and st.value is not None:
+            name, v = st.target.id, st.value
+        else:
+            continue
+        if name in known_names or name.startswith('__'):
+            continue
+        lit = v
+        if isinstance(v, ast.Call) and isinstance(v.func, ast.Name) and v.func.id in ('frozenset', 'set', 'tuple') and len(v.args) == 1 and not v.keywords:
+            lit = v.args[0]
+        if isinstance(lit, (ast.Tuple, ast.List, ast.Set)) and len(lit.elts) <= 16 and all(_table_value_ok(x) for x in lit.elts):
+            consts[name] = v
+        elif isinstance(lit, ast.Dict) and len(lit.keys) <= 16 and all(k is not None and _table_value_ok(k) for k in lit.keys) and all(_table_value_ok(x) for x in lit.values):
+            consts[name] = v
+        elif isinstance(v, ast.Constant) and isinstance(v.value, (int, str, float, bool, type(None))):
+            consts[name] = v
+    if not consts:
+        return []
+    parents = {}
+    for p_ in ast.walk(tree):
+        for ch in ast.iter_child_nodes(p_):
+            parents[ch] = p_
+    for n in ast.walk(tree):
+        if isinstance(n, ast.Name) and n.id in consts:
+            par = parents.get(n)
+            if not isinstance(n.ctx, ast.Load):
+                if not (isinstance(par, (ast.Assign, ast.AnnAssign)) and par in tree.body):
+                    consts.pop(n.id, None)
+            elif isinstance(par, ast.Attribute) and par.attr in _MUTATORS:
+                consts.pop(n.id, None)
+            elif isinstance(par, ast.Subscript) and par.value is n and not isinstance(par.ctx, ast.Load):
+                consts.pop(n.id, None)
+        elif isinstance(n, (ast.Global, ast.Nonlocal)):
+            for nm in n.names:
+                consts.pop(nm, None)
+    # a function parameter / local of the same name shadows the constant: leave such names alone
+    for fn in ast.walk(tree):
+        if isinstance(fn, FUNC):
+            bound = {a.arg for a in ast.walk(fn.args) if isinstance(a, ast.arg)} | {x.id for x in ast.walk(fn) if isinstance(x, ast.Name) and not isinstance(x.ctx, ast.Load)}
+            for nm in bound & set(consts):
+                consts.pop(nm, None)
+    if not consts:
+        return []
+    used = set()
+
+    class T(ast.NodeTransformer):
+        def visit_Name(self, node):
+            if isinstance(node.ctx, ast.Load) and node.id in consts:
+                used.add(node.id)
+                return ast.copy_location(copy.deepcopy(consts[node.id]), node)
+            return node
+    for st in tree.body:
+        if isinstance(st, (ast.Assign, ast.AnnAssign)) and any(isinstance(t, ast.Name) and t.id in consts for t in (st.targets if isinstance(st, ast.Assign) else [st.target])):
+            continue
+        T().visit(st)
+    return sorted(used)
+
+
 def _functions_postorder(node, out):
     for ch in ast.iter_child_nodes(node):
         _functions_postorder(ch, out)
@@ -872,6 +957,8 @@ def normalise_module(tree, modname, known=None):
             t.visit(tree)
             if t.count:
                 done.extend(sorted(k for k in tables if not k.endswith('/seq')))
+    if known_names is not None:
+        done.extend(_inline_constants(tree, known_names))
     done.extend(_inline_helpers(tree, known))
     if done:
         _Split().visit(tree)
@@ -890,13 +977,25 @@ def _inline_helpers(tree, known):
             for st in n.body:
                 if isinstance(st, ast.FunctionDef) and st.name not in known:
                     cands.setdefault(st.name, st)
-    if not cands:
+    # new methods (`self._helper(..)`): only when the name is new in the whole module and defined by one class
+    mcands = {}
+    for c in ast.walk(tree):
+        if isinstance(c, ast.ClassDef):
+            for st in c.body:
+                if isinstance(st, ast.FunctionDef) and st.name not in known and not (st.name.startswith('__') and st.name.endswith('__')):
+                    mcands.setdefault(st.name, []).append(st)
+    if not cands and not mcands:
         return []
     helpers = {}
     for name, fn in cands.items():
         h = analyse_helper(fn)
         if h is not None:
             helpers[name] = h
+    for name, fns_ in mcands.items():
+        if len(fns_) == 1:
+            h = analyse_helper(fns_[0], method=True)
+            if h is not None:
+                helpers['self.' + name] = h
     if not helpers:
         return []
     inl = Inliner(helpers)
@@ -917,8 +1016,9 @@ def _inline_helpers(tree, known):
             break
     fns = []
     _functions_postorder(tree, fns)
+    own = {id(h.node) for h in helpers.values()}
     for fn in fns:
-        if fn.name in helpers and helpers[fn.name].node is fn:
+        if id(fn) in own:
             continue
         inl.function(fn)
         # a nested helper that is no longer called can stay; nothing reads it
